@@ -89,6 +89,9 @@ func c14Stage(b *builtList, items []*astisub.Item, snaps []itemSnap, cues []cueS
 		if f.String() == "" {
 			return "filler has no placeholder text; " + ctx()
 		}
+		if m := snapDiff(snapItem(f), fillerRefSnap); m != "" {
+			return fmt.Sprintf("the filler differs from the plain placeholder cue a fresh list gets (%s): index %d, style %v, region %v, inline %v; %s", m, f.Index, f.Style != nil, f.Region != nil, f.InlineStyle != nil, ctx())
+		}
 		if f.String() != fillerRef {
 			return fmt.Sprintf("filler text is %q, the first filler this process obtained read %q (the placeholder depends on earlier calls); %s", f.String(), fillerRef, ctx())
 		}
@@ -105,14 +108,15 @@ func c14Stage(b *builtList, items []*astisub.Item, snaps []itemSnap, cues []cueS
 	return ""
 }
 
-// fillerRef is the placeholder text of a filler obtained before any other call of this process.
-var fillerRef = func() string {
+// fillerRef / fillerRefSnap: the placeholder text and the whole non-time content of a filler obtained on an empty list
+// before any other call of this process.
+var fillerRef, fillerRefSnap = func() (string, itemSnap) {
 	s := astisub.NewSubtitles()
 	s.ForceDuration(time.Second, true)
 	if len(s.Items) != 1 {
-		return "?"
+		return "?", itemSnap{}
 	}
-	return s.Items[0].String()
+	return s.Items[0].String(), snapItem(s.Items[0])
 }()
 
 func checkC14(c c14Case) string {
